@@ -11,7 +11,7 @@ PROPS["C11"] = dict(
           "(bitswap, gateway, 2 graphsync, 2 unknown) in every distinct construction order; roundtrip-sampled: seeded "
           "multisets of size 1..6 of freshly generated protocols; hostile: seeded mutants (bit flip, truncation, "
           "length-field tampering up to 2^63, splice, ...) of valid encodings, <=1024 bytes, decoded under panic and "
-          "TotalAlloc guards and compared with an independent reference segmenter. Graphsync piece CIDs include identity CIDs of 14..37, 240..263 and 500..523 bytes (the sizes at which CBOR length prefixes grow). distinct_nontrivial counts distinct "
+          "TotalAlloc guards and compared with an independent reference segmenter. Graphsync piece CIDs include identity CIDs of 14..37, 240..263 and 500..523 bytes (the sizes at which CBOR length prefixes grow). The bytes an encoding returned are overwritten by the caller: the next encoding and a decode of the kept copy must be unaffected. distinct_nontrivial counts distinct "
           "construction orders of >=2 protocols, distinct id-sequences of >=3 sampled protocols and distinct "
           "(mutation kind, decoded protocol list) pairs among ACCEPTED hostile inputs."),
     floors={"quick": {"decoded_into_a_zero_value_metadata": 10000, "hostile_accepted": 500, "hostile_rejected": 5000, "distinct": 500},
@@ -71,9 +71,9 @@ PROPS["C20"] = dict(
           "each parsed from its textual form; tls-forms: /http, /https, /tls/http multiaddrs; end-to-end: a real sync client is given "
           "FromURL(publisher URL) and the path it requests is observed at a local HTTP server; helpers: address lists generated from labelled "
           "templates (public/private/loopback/unspecified/localhost/dns x http/https/tls-http/other) with duplicates, nils, permutations. "
-          "Address lists include zoned IPv6 addresses (/ip6zone/z/ip6/...) of every class over few zones and http/https directly after the host (no tcp component). A quarter of the URL cases also convert the form older publishers advertise (/httpath/<url.PathEscape(path)>) with ToURL and expect the same path and scheme; MultiaddrsEqual is compared with multiset equality on lists with repeated addresses over three addresses (including every address twice against other addresses twice). distinct_nontrivial = distinct (scheme, host kind, port present, path character classes) tuples, (host kind, form), path classes seen end "
+          "Address lists include zoned IPv6 addresses (/ip6zone/z/ip6/...) of every class over few zones and http/https directly after the host (no tcp component). A quarter of the URL cases also convert the form older publishers advertise (/httpath/<url.PathEscape(path)>) with ToURL and expect the same path and scheme; MultiaddrsEqual is compared with multiset equality on lists with repeated addresses over three addresses (including every address twice against other addresses twice). ToURL of every generated HTTP address keeps the host (IP or DNS name, no brackets around names), with and without a tcp component. distinct_nontrivial = distinct (scheme, host kind, port present, path character classes) tuples, (host kind, form), path classes seen end "
           "to end, and address-class multisets of size >=2."),
-    floors={"quick": {"legacy_httpath_addresses": 8000, "repeated_address_lists_compared": 8000, "path_space": 500, "path_plus": 500, "path_pct": 500, "host_ip6": 2000, "host_dns": 2000, "e2e_requests": 200, "multiplicity_checked": 1000},
+    floors={"quick": {"tourl_hosts_checked": 20000, "legacy_httpath_addresses": 8000, "repeated_address_lists_compared": 8000, "path_space": 500, "path_plus": 500, "path_pct": 500, "host_ip6": 2000, "host_dns": 2000, "e2e_requests": 200, "multiplicity_checked": 1000},
             "thorough": {"path_space": 20000, "path_plus": 20000, "host_ip6": 100000, "e2e_requests": 5000}},
     level_text=("Exploration: conversions are run on seeded URLs covering every host kind, port shape and path character class; the "
                 "oracle is equality of scheme, hostname, port and decoded path, plus the path a real sync client actually requests. "
@@ -152,9 +152,9 @@ PROPS["C13"] = dict(
           "decode(encode(v)) == v with optional parts kept absent/present, re-encoding stable, generic-prototype+Unwrap == typed, Store twice => "
           "same CID, load typed/generic == v; chunk-roundtrip: 0..50 multihashes of six hash functions with/without next link, same checks; "
           "hostile: seeded mutants of dag-json and dag-cbor encodings through BytesToAdvertisement/BytesToEntryChunk: error or re-encodable "
-          "value, typed and generic paths agree, no panic. One address in six is a valid multiaddr in a non-canonical spelling (trailing slash, expanded IPv6, legacy /ipfs/) and must come back as written; one hostile input in 40 is a few bytes of white space or a lone token. One chunk in 500 has the 16384 entries providers really publish (over a megabyte as DAG-JSON). distinct_nontrivial = option-bit combinations, chunk shapes and (mutation kind, codec, "
+          "value, typed and generic paths agree, no panic. One address in six is a valid multiaddr in a non-canonical spelling (trailing slash, expanded IPv6, legacy /ipfs/) and must come back as written; one hostile input in 40 is a few bytes of white space or a lone token. One chunk in 500 has the 16384 entries providers really publish (over a megabyte as DAG-JSON). Every advertisement block is decoded twice, the first result changed in place in between, and a different block is decoded under the same CID argument: each decode goes by the bytes given. distinct_nontrivial = option-bit combinations, chunk shapes and (mutation kind, codec, "
           "type) among ACCEPTED hostile inputs."),
-    floors={"quick": {"full_size_entry_chunks": 5, "hostile_blank_or_lone_token_inputs": 1200, "hostile_accepted": 300, "hostile_rejected": 10000, "distinct": 150}},
+    floors={"quick": {"blocks_decoded_again_after_the_first_result_was_changed": 1200, "full_size_entry_chunks": 5, "hostile_blank_or_lone_token_inputs": 1200, "hostile_accepted": 300, "hostile_rejected": 10000, "distinct": 150}},
     level_text=("Exploration: the library's own encode/decode/store/load entry points are executed on every combination of optional parts and on "
                 "tens of thousands of mutated encodings; oracles are value equality, CID equality, typed/generic agreement and absence of panics."),
     level_note="Trusted: go-ipld-prime's codecs as the reference for what 'encodes' means; the harness's equality (nil ~ empty).",
@@ -239,8 +239,8 @@ PROPS["C09"] = dict(
           "localhost/DNS); every Direct carries a unique marker address so the stream read from Next identifies exactly which calls were "
           "delivered; receiver-concurrent: 3 clients issuing Direct/UncacheCid around the eviction boundary, history checked with porcupine "
           "against the same model; pubsub: three libp2p hosts on one gossip topic (publisher, relay with resend, receiver). "
-          "Every fourth CID of the alphabet shares its digest with its neighbour under another codec and every sixteenth is the CIDv0 form of its neighbour's digest; the pubsub scenario rotates the downstream receiver's allow filter through {only the relay, only the original publisher, none}. One announcement in ten has only private / loopback / unspecified addresses (recognised by a CID of its own): with address filtering on it is delivered without addresses. In the pubsub scenario a burst of five announcements arrives at a second receiver whose consumer is not asking yet: all five are delivered when it does. distinct_nontrivial = sampled distinct exhaustive sequences + history configurations."),
-    floors={"quick": {"pubsub_bursts_delivered_to_a_late_consumer": 2, "delivered_although_republication_failed": 2, "delivered_announcements_without_any_public_address": 3000, "pubsub_republication_of_disallowed_publisher": 1, "pubsub_allow_filter_on_B_only-original-publisher": 1, "evictions": 800, "refresh_on_hit": 2000, "uncache_then_delivered": 100, "rejected_then_delivered": 100, "concurrent_histories": 20, "pubsub_runs_completed": 2, "seqs_with_eviction_and_hit": 100000}},
+          "Every fourth CID of the alphabet shares its digest with its neighbour under another codec and every sixteenth is the CIDv0 form of its neighbour's digest; the pubsub scenario rotates the downstream receiver's allow filter through {only the relay, only the original publisher, none}. One announcement in ten has only private / loopback / unspecified addresses (recognised by a CID of its own): with address filtering on it is delivered without addresses. In the pubsub scenario a burst of five announcements arrives at a second receiver whose consumer is not asking yet: all five are delivered when it does. A plain announcement published on the receiver's own host and topic is delivered where its filter allows that host. distinct_nontrivial = sampled distinct exhaustive sequences + history configurations."),
+    floors={"quick": {"own_host_plain_announcements_delivered": 1, "pubsub_bursts_delivered_to_a_late_consumer": 2, "delivered_although_republication_failed": 2, "delivered_announcements_without_any_public_address": 3000, "pubsub_republication_of_disallowed_publisher": 1, "pubsub_allow_filter_on_B_only-original-publisher": 1, "evictions": 800, "refresh_on_hit": 2000, "uncache_then_delivered": 100, "rejected_then_delivered": 100, "concurrent_histories": 20, "pubsub_runs_completed": 2, "seqs_with_eviction_and_hit": 100000}},
     watchdog_s={"quick": 900, "thorough": 7200},
     level_text=("Exploration (the small-capacity LRU part is exhaustive up to the stated length): delivery decisions of the real receiver are "
                 "compared call by call with a reference model of 'allowed and not among the 64 most recently seen, un-removed CIDs'; "
@@ -284,9 +284,9 @@ PROPS["C01"] = dict(
           "libp2p-HTTP discovery mounts. A real Subscriber syncs a real Publisher behind a logging front; hooks, SyncFinished.Count, returned "
           "head, latest-synced, requests seen by the publisher and the destination store are compared with a reference model, and with a "
           "twin run with segmentation off and nothing pre-stored. entries: SyncEntries (EntriesDepthLimit / scoped / -1, segmented), "
-          "SyncOneEntry, SyncHAMTEntries over link trees without shared children. One case in eight cancels the caller's context from the block hook at the n-th reported block: a sync that then fails is not judged here, one that reports success must still be exact. distinct_nontrivial = distinct configurations whose expected "
+          "SyncOneEntry, SyncHAMTEntries over link trees without shared children. One case in eight cancels the caller's context from the block hook at the n-th reported block: a sync that then fails is not judged here, one that reports success must still be exact. A third of the entries cases are preceded, on the same subscriber, by an entries sync of another chain with a depth limit of its own (1, 2 or unlimited), which must not carry over. distinct_nontrivial = distinct configurations whose expected "
           "list is non-empty and where a stop point inside the chain, a binding depth, a segment smaller than the list or a pre-stored block is present."),
-    floors={"quick": {"syncs_failed_by_cancellation_from_the_hook": 8, "syncs_successful_although_cancelled_from_the_hook": 150, "segmented_cases": 800, "segment_ends_exactly_on_stop_block": 50, "depth_not_multiple_of_segment": 30, "depth_limit_binding": 300, "stop_equals_head": 30,
+    floors={"quick": {"entries_syncs_preceded_by_a_sync_with_its_own_depth_limit": 200, "syncs_failed_by_cancellation_from_the_hook": 8, "syncs_successful_although_cancelled_from_the_hook": 150, "segmented_cases": 800, "segment_ends_exactly_on_stop_block": 50, "depth_not_multiple_of_segment": 30, "depth_limit_binding": 300, "stop_equals_head": 30,
                       "with_prestored_blocks": 1000, "discovery_mount": 100, "entries_kind_hamt": 100, "entries_kind_one": 100, "distinct": 1000}},
     level_text=("Exploration: thousands of real syncs over the configuration space of the quantifier, each compared with an independent "
                 "reference model of 'head back to the stop point, cut at the applicable depth' and with a differential twin; the publisher's "
@@ -309,8 +309,8 @@ PROPS["C02"] = dict(
           "(only the first corrupts). Three phases per case against one store: corrupted sync, honest retry, resync with another position "
           "corrupted. After EVERY sync every key/value of the destination store is re-hashed with the CID's own function and length, hooks must "
           "name only blocks stored intact, the corrupted sync must fail iff the corrupted response was actually consumed, and the store after "
-          "the honest retry must equal the publisher's. Corruption kind cut-mid-body announces the full length and cuts the connection after k bytes (a read error mid-body); the next answer for that CID then carries only the remainder. Sub-check failing-store: the LOCAL store fails one chosen block write after k bytes and still commits what it has; the sync must fail, nothing that does not hash to its CID may be stored or reported, and the retry with a working store must complete. A third of the corrupt-sync cases mark the subscriber's own link system TrustedStorage; corruption kinds append-whitespace / prepend-whitespace add what a text-oriented host may add around a JSON document. Sub-check branching-traversal: the subscriber follows every link of an advertisement (StrictAdsSelector(false)), advertisements carry entry chunks, one reachable block (advertisement or chunk) is corrupted and the links visited after it answer correctly; the sync must fail, set no latest-synced, neither store nor report the bad block, and the honest retry must store every reachable block. After every phase the store must hold nothing but blocks of the chain that was asked for (refused bytes are not kept under another name either). distinct_nontrivial = distinct (hash prefix, corruption, position, mode) tuples."),
-    floors={"quick": {"mut_append-whitespace": 40, "corrupted_response_among_sibling_links": 150, "subscriber_link_system_marked_trusted": 200, "remainder_only_answers": 60, "store_write_faults_hit": 150, "corrupted_response_consumed": 1500, "audited_store_entries": 5000, "two_address_cases": 200, "big_block_cases": 40, "hash_identity": 100, "hash_sha2-256/16": 100}},
+          "the honest retry must equal the publisher's. Corruption kind cut-mid-body announces the full length and cuts the connection after k bytes (a read error mid-body); the next answer for that CID then carries only the remainder. Sub-check failing-store: the LOCAL store fails one chosen block write after k bytes and still commits what it has; the sync must fail, nothing that does not hash to its CID may be stored or reported, and the retry with a working store must complete. A third of the corrupt-sync cases mark the subscriber's own link system TrustedStorage; corruption kinds append-whitespace / prepend-whitespace add what a text-oriented host may add around a JSON document. Sub-check branching-traversal: the subscriber follows every link of an advertisement (StrictAdsSelector(false)), advertisements carry entry chunks, one reachable block (advertisement or chunk) is corrupted and the links visited after it answer correctly; the sync must fail, set no latest-synced, neither store nor report the bad block, and the honest retry must store every reachable block. After every phase the store must hold nothing but blocks of the chain that was asked for (refused bytes are not kept under another name either). Sub-check digest-of-another-function: a head whose predecessor link names hash function A while its digest is the digest of the served bytes under function B (the function of the head itself): the sync must fail and store nothing under that CID. Sub-check private-hash-function: the application link system knows a private-use function through its own HasherChooser; a corrupted body for a CID naming it is never stored or reported, whether or not the link can be followed. distinct_nontrivial = distinct (hash prefix, corruption, position, mode) tuples."),
+    floors={"quick": {"blocks_served_under_a_cid_naming_another_function": 25, "mut_append-whitespace": 40, "corrupted_response_among_sibling_links": 150, "subscriber_link_system_marked_trusted": 200, "remainder_only_answers": 60, "store_write_faults_hit": 150, "corrupted_response_consumed": 1500, "audited_store_entries": 5000, "two_address_cases": 200, "big_block_cases": 40, "hash_identity": 100, "hash_sha2-256/16": 100}},
     level_text=("Fault enumeration over (hash prefix x corruption kind x request position x mode), sampled with a seeded PRNG: the real "
                 "subscriber syncs from a real publisher whose responses are corrupted in flight; the destination store is audited entry by entry."),
     level_note="Trusted: go-multihash for the audit re-hash (same library the code under test uses; an independent implementation is not available offline).",
@@ -334,8 +334,8 @@ PROPS["C04"] = dict(
           "notification. Sub-check unusable-address: the sync fails before any request because no sync client can be made from the addresses "
           "(plain tcp / udp address, or none for an unknown publisher), for subscribers with and without a libp2p host, explicit and "
           "announced; the end of an announcement's handling is detected from the tap counters; same obligations, then the same head with "
-          "the real address. A fifth of the cases reach the publisher over libp2p streams (mount libp2p-stream: the subscriber has a libp2p host of its own; a reset fault resets the stream). Explicit syncs run under a 150 s bounded-progress watchdog: a sync that neither completes nor fails is a violation. A quarter of the single-address cases retry with the publisher's ID alone (no address): the address the failed sync was given must still be known. The fault-free baseline sync is a precondition: it is retried up to three times and a baseline that cannot be established leaves the case inconclusive. distinct_nontrivial = distinct (fault script, mode, mount, address list, baseline kind) tuples."),
-    floors={"quick": {"retries_naming_the_publisher_only": 60, "announced_cases_with_a_concurrency_limit": 40, "mount_libp2p-stream": 80, "unusable_address_syncs_failed": 12, "faulty_syncs_failed": 500, "fault_pairs": 150, "mount_libp2phttp-discovery": 150, "mount_legacy-nopath": 150, "addrs_live-dead": 80, "addrs_dead-live": 80,
+          "the real address. A fifth of the cases reach the publisher over libp2p streams (mount libp2p-stream: the subscriber has a libp2p host of its own; a reset fault resets the stream). Explicit syncs run under a 150 s bounded-progress watchdog: a sync that neither completes nor fails is a violation. A quarter of the single-address cases retry with the publisher's ID alone (no address): the address the failed sync was given must still be known. The fault-free baseline sync is a precondition: it is retried up to three times and a baseline that cannot be established leaves the case inconclusive. In a third of the announced cases the same head is announced a second time while every block request still fails: one more error notification naming the head (or, if nothing was missing any more, the successful retry). distinct_nontrivial = distinct (fault script, mode, mount, address list, baseline kind) tuples."),
+    floors={"quick": {"same_head_failing_twice": 40, "retries_naming_the_publisher_only": 60, "announced_cases_with_a_concurrency_limit": 40, "mount_libp2p-stream": 80, "unusable_address_syncs_failed": 12, "faulty_syncs_failed": 500, "fault_pairs": 150, "mount_libp2phttp-discovery": 150, "mount_legacy-nopath": 150, "addrs_live-dead": 80, "addrs_dead-live": 80,
                       "fault_hit_reset": 30, "fault_hit_stall": 10, "fault_hit_ctx-cancel": 20, "fault_hit_hook-fail": 20}},
     watchdog_s={"quick": 1200, "thorough": 7200},
     level_text=("Fault enumeration (seeded sample over kind x request index x mode x mount x address list, singles and pairs): real syncs against a "
@@ -407,9 +407,9 @@ PROPS["C08"] = dict(
           "advertisement after the baseline is reported exactly once; no block requested twice; latest-synced == last announced head or an error "
           "notification naming that head. Half of the announce-only runs answer a share of first block requests with 500, so announce-triggered "
           "syncs fail while other publishers wait for a slot; the number of announce-triggered syncs between sync.enter and sync.exit is bounded "
-          "by the maximum as well; the pending announcement is never taken while another sync of that publisher is between enter and exit. A quarter of the schedules use an idle-handler TTL of 0.3-3 ms with requests held at the publisher (the cleaner runs many times during every sync); the mixed runs also run SyncEntries with a scoped hook on the same publishers, whose blocks must all reach that hook. Announce-only runs with failing requests end with an announcement whose sync is held and then fails, and a newer announcement made once that sync is under way (the publisher front reports the arrival of the held request): the newer one is the last announcement, and the error notification that excuses a latest-synced short of it must name that head. In runs with expiring contexts the block hook takes its time on a third of the blocks, and a third of the explicit syncs are cancelled from the next hook call for their publisher, so contexts end while blocks are being reported; the hook calls that follow must still lie inside that sync. A poller calls GetLatestSync throughout. distinct_nontrivial = run configurations x (coalescing seen, spawn-while-running seen); distinct interleaving "
+          "by the maximum as well; the pending announcement is never taken while another sync of that publisher is between enter and exit. A quarter of the schedules use an idle-handler TTL of 0.3-3 ms with requests held at the publisher (the cleaner runs many times during every sync); the mixed runs also run SyncEntries with a scoped hook on the same publishers, whose blocks must all reach that hook. Announce-only runs with failing requests end with an announcement whose sync is held and then fails, and a newer announcement made once that sync is under way (the publisher front reports the arrival of the held request): the newer one is the last announcement, and the error notification that excuses a latest-synced short of it must name that head. In runs with expiring contexts the block hook takes its time on a third of the blocks, and a third of the explicit syncs are cancelled from the next hook call for their publisher, so contexts end while blocks are being reported; the hook calls that follow must still lie inside that sync. A poller calls GetLatestSync throughout. Half of the mixed runs whose limit is below the number of publishers call Close in mid-run: mutual exclusion per publisher and the bound on announce-triggered syncs between sync.enter and sync.exit still apply until Close returns (the completeness rules are skipped there). distinct_nontrivial = run configurations x (coalescing seen, spawn-while-running seen); distinct interleaving "
           "signatures are counted separately."),
-    floors={"quick": {"runs_with_remove_handler_calls": 15, "get_latest_sync_calls_during_syncs": 5000, "runs_ending_with_a_newer_announcement_during_a_failing_sync": 100, "slow_hook_calls_in_runs_with_expiring_contexts": 400, "explicit_syncs_cancelled_from_a_hook_call": 25, "entries_syncs_of_the_same_publishers": 120, "runs_with_idle_handler_ttl_shorter_than_a_sync": 25, "coalesced_announcements": 100, "spawn_while_previous_sync_running": 20, "syncs_observed": 300, "runs_reaching_the_concurrency_limit": 3, "runs_with_last_known_baseline": 10, "explicit_syncs_with_expiring_context": 10, "runs_with_failing_syncs": 15, "failed_announce_syncs": 50}},
+    floors={"quick": {"runs_closed_while_announcements_and_explicit_syncs_were_coming_in": 3, "runs_with_remove_handler_calls": 15, "get_latest_sync_calls_during_syncs": 5000, "runs_ending_with_a_newer_announcement_during_a_failing_sync": 100, "slow_hook_calls_in_runs_with_expiring_contexts": 400, "explicit_syncs_cancelled_from_a_hook_call": 25, "entries_syncs_of_the_same_publishers": 120, "runs_with_idle_handler_ttl_shorter_than_a_sync": 25, "coalesced_announcements": 100, "spawn_while_previous_sync_running": 20, "syncs_observed": 300, "runs_reaching_the_concurrency_limit": 3, "runs_with_last_known_baseline": 10, "explicit_syncs_with_expiring_context": 10, "runs_with_failing_syncs": 15, "failed_announce_syncs": 50}},
     max_counters=["max_concurrent_announce_syncs", "max_announce_syncs_between_start_and_end"],
     watchdog_s={"quick": 900, "thorough": 7200},
     level_text=("Exploration over schedules: many short seeded runs with injected delays; every run's full event log is checked offline for mutual "
@@ -437,7 +437,7 @@ PROPS["C14"] = dict(
           "order reaches the fast listener out of order. Failing announce syncs are held at the publisher so that newer announcements queue "
           "behind them; every handling goroutine that ran a sync must have sent exactly one notification, and explicit syncs that ran and "
           "returned success must equal the notifications sent from explicit-sync goroutines. "
-          "One explicit sync in four is a resync or carries an explicit older stop CID (the head recorded as latest then does not change, the notification is due all the same). A share of the announcements carries an address the subscriber cannot use (the handling goroutine cannot start a sync): such a goroutine sends at most one notification. A quarter of the explicit syncs have their context cancelled from the block hook (the caller gives up while the blocks are reported): a sync that completes all the same is notified like any other. Whether a notification was missed is decided per publisher by finding the notifications a listener had to get, in emission order, among those it received. In half of the runs that end with Close one more explicit sync is held at its very end while Close starts; Close lets it finish, and every listener still registered must get its notification. A third of the runs give the subscriber a 300 ms HTTP timeout and let half of the failing announce syncs fail because the publisher does not answer (a deadline error): one error notification is due all the same. distinct_nontrivial = distinct run configurations."),
+          "One explicit sync in four is a resync or carries an explicit older stop CID (the head recorded as latest then does not change, the notification is due all the same). A share of the announcements carries an address the subscriber cannot use (the handling goroutine cannot start a sync): such a goroutine sends at most one notification. A quarter of the explicit syncs have their context cancelled from the block hook (the caller gives up while the blocks are reported): a sync that completes all the same is notified like any other. Whether a notification was missed is decided per publisher by finding the notifications a listener had to get, in emission order, among those it received. In half of the runs that end with Close one more explicit sync is held at its very end while Close starts; Close lets it finish, and every listener still registered must get its notification. A third of the runs give the subscriber a 300 ms HTTP timeout and let half of the failing announce syncs fail because the publisher does not answer (a deadline error): one error notification is due all the same. The notification of an announce-triggered sync names the head of the announcement that goroutine took (pending.taken tap), whichever announcement it was started for. distinct_nontrivial = distinct run configurations."),
     floors={"quick": {"announce_syncs_failing_by_http_timeout": 20, "syncs_finishing_while_close_is_under_way": 15, "explicit_syncs_whose_context_ended_while_blocks_were_reported": 150, "listener_read-some-then-stall": 15, "announcements_with_an_unusable_address": 80, "explicit_resyncs": 100, "explicit_syncs_with_stop_cid": 80, "must_deliveries_checked": 600, "emitted_events": 500, "long_runs_with_stalled_listener": 5, "listener_stalled": 10, "listener_cancel-then-read": 10, "listener_cancel-after-n": 10, "announce_triggered_syncs_checked": 200, "held_notification_overlap_runs": 12, "explicit_syncs_completed": 300}},
     watchdog_s={"quick": 900, "thorough": 7200},
     level_text=("Exploration over schedules: each run's listeners are compared with the emission log; delivery obligations are derived from logical "
